@@ -1,1 +1,93 @@
-import TT.Model.Wire
+/-
+  C04 — Persist commits, drop rolls back, and the host's span context is always restored.
+
+  Model of the repaired code (enter counts, `fix:` 7736dfc). The host's span stack is the
+  Registry-style stack of TT/Model/Receiver.lean. Well-formedness of the guest stream enters in
+  one place only: the last handle of a span is not dropped while the span is entered
+  (`wfDrops`); everything else holds for arbitrary event sequences, nested, re-entrant and
+  non-LIFO enters included.
+-/
+import TT.Lemmas.RecvSim
+
+namespace TT
+
+/-- Ids on the host's stack were issued by it. -/
+def HostFresh (host : Host) : Prop := ∀ e ∈ host.stack, e.1 < host.next
+
+/-- The stack the host had before the chain processed anything; a host restart starts from an
+    empty stack. -/
+def baseAfter (B : List (Nat × Bool)) : List HOp → List (Nat × Bool)
+  | [] => B
+  | .persist .loseNew :: ops => baseAfter [] ops
+  | _ :: ops => baseAfter B ops
+
+def lastHandle (σ : Sigma) (id : Nat) : Bool :=
+  match σ.r.spans.get id with
+  | some d => d.refCount == 1
+  | none => false
+
+/-- The guest never drops the last handle of a span that is currently entered. -/
+def wfDrops (s : Sys) : List HOp → Bool
+  | [] => true
+  | op :: ops =>
+    (match op with
+      | .ev (.dropped id) => !(lastHandle s.σ id && s.σ.r.entered.contains id)
+      | _ => true) && wfDrops (s.step op) ops
+
+/-- Calls made between two host states (newest first). -/
+def newCalls (before after : Host) : List HostCall := after.log.take (after.log.length - before.log.length)
+
+/-- Whenever a receiver is persisted or dropped — after any history, at any prefix of the stream,
+    with arbitrarily nested or re-entrant enters — the host's span stack is what it was before
+    the chain processed anything. -/
+theorem C04_stack_restored (w₀ : World) (hf : HostFresh w₀.host) (ops : List HOp)
+    (hwf : wfDrops (Sys.init w₀) ops = true) :
+    let s := runHistory (Sys.init w₀) ops
+    (persist s.σ).2.2.host.stack = baseAfter w₀.host.stack ops ∧
+    (dropR s.σ).host.stack = baseAfter w₀.host.stack ops := by
+  sorry
+
+/-- Persisting closes nothing: it only force-exits. -/
+theorem C04_persist_closes_nothing (σ : Sigma) :
+    ∀ c ∈ newCalls σ.w.host (persist σ).2.2.host, ∃ h, c = .exit h := by
+  sorry
+
+/-- Dropping without persisting closes exactly the host spans of the uncommitted guest spans,
+    once each, and nothing else. -/
+theorem C04_drop_closes_uncommitted (σ : Sigma) :
+    (newCalls σ.w.host (dropR σ).host).reverse.filterMap (fun c => match c with | .tryClose h => some h | _ => none)
+      = σ.r.uncommitted.filterMap (σ.r.loc.get ·) ∧
+    ∀ c ∈ newCalls σ.w.host (dropR σ).host, (∃ h, c = .exit h) ∨ (∃ h, c = .tryClose h) := by
+  sorry
+
+/-- The uncommitted set is exactly: born in this lifetime and still alive. It starts empty in
+    every lifetime, grows by the id of an accepted `new_span`, shrinks by the id whose last handle
+    is dropped, and is otherwise untouched; its members are alive and listed once. -/
+theorem C04_uncommitted_starts_empty (pm : PersistedMeta) (ps : PersistedSpans) (loc : AMap Nat Nat) (w : World) :
+    (restore pm ps loc w).r.uncommitted = [] ∧ (Sys.init w).σ.r.uncommitted = [] := by
+  sorry
+
+theorem C04_uncommitted_step (σ σ' : Sigma) (e : Event) (h : tryReceive σ e = .ok σ') :
+    σ'.r.uncommitted = match e with
+      | .newSpan id _ _ _ => ASet.insert σ.r.uncommitted id
+      | .dropped id => if lastHandle σ id then ASet.erase σ.r.uncommitted id else σ.r.uncommitted
+      | _ => σ.r.uncommitted := by
+  sorry
+
+theorem C04_uncommitted_alive_once (w₀ : World) (ops : List HOp) :
+    let s := runHistory (Sys.init w₀) ops
+    s.σ.r.uncommitted.Nodup ∧ ∀ g ∈ s.σ.r.uncommitted, s.σ.r.spans.contains g = true := by
+  sorry
+
+/-- Non-vacuity: re-entrant and nested enters on top of a pre-existing host span, then abort. -/
+example :
+    let d : CallSite := ⟨.span, [110], [97], .info, none, none, none, []⟩
+    let w₀ : World := { host := ({} : Host).pushBase }
+    let ops : List HOp := [.ev (.newCallSite 7 d), .ev (.newSpan 1 none 7 []), .ev (.newSpan 2 none 7 []),
+      .ev (.entered 1), .ev (.entered 2), .ev (.entered 1), .ev (.exited 2)]
+    let s := runHistory (Sys.init w₀) ops
+    wfDrops (Sys.init w₀) ops = true ∧ s.σ.w.host.stack = [(2, true), (2, false), (1, false)] ∧
+    (dropR s.σ).host.stack = [(1, false)] ∧ (persist s.σ).2.2.host.stack = [(1, false)] := by
+  decide
+
+end TT
